@@ -65,6 +65,9 @@ def make_case(a, tier, idx=0):
                 m = METHODS[idx % 3]
                 runs.append(run_config(a, kind, m, dt, build_opts={'fresh_labels': True}))
                 runs.append(run_config(a, kind, m, dt, build_opts={'fresh_labels': True, 'rule_order': list(reversed(range(len(a['rules']))))}))
+            if idx % 3 == 2:
+                # the start symbol declared last (the grammar object is created around another nonterminal)
+                runs.append(run_config(a, kind, METHODS[idx % 2], dt, build_opts={'start_last': True}))
     a = {k: v for k, v in a.items() if k != 'pat'}
     return {'ag': a, 'runs': runs}
 
@@ -164,6 +167,11 @@ def cases_for(tier, seed, work, o: Outcome):
             a = dict(a2, pat=pat) if pat else a
         ags.append(a)
     o.extra['pass_through_grammars'] = npass
+    # sparsely patterned rule results multiplied by the domain size of edge-less internal nodes
+    nsp = 40 if tier == 'quick' else 400
+    for i in range(nsp):
+        ags.append(AG.gen_sparse_rule(rng))
+    o.extra['sparse_rule_grammars'] = nsp
     return ags
 
 
